@@ -4,10 +4,17 @@
      paths not yet reached hold the old entry unless a removed root above them was passed —
    hence the transfer never fails, converges to the source's view, leaves every unchanged
    entry literally in place (stat, bytes, inode class), and the digests in the
-   notifications are those of the bytes finally stored. *)
+   notifications are those of the bytes finally stored.
+   Hard links: a new name shows the metadata of the inode it joins (AbsDest.link_stat), not the
+   stat that was sent.  The invariant is therefore proved once, parametrised by two
+   propositions [Mh] (=> links_meta B: link entries carry the metadata of their target) and
+   [Xh] (=> link_xattrs_kept: a link target that stays in place has the source's xattrs):
+   without them a passed hard-link path holds a non-directory with the source's bytes; with
+   [Mh] also the source's identity key; with both, every hard-link change is honest
+   (the destination shows exactly the stat that was announced). *)
 From Coq Require Import List NArith Lia Bool Sorting.Sorted.
 From FS Require Import Sx Model.Path Model.Stat Model.Diff Model.AbsDest
-  Proofs.Lex Proofs.PathP Proofs.DiffP Proofs.AbsDestP.
+  Proofs.Lex Proofs.PathP Proofs.DiffP Proofs.DiffSpecP Proofs.AbsDestP.
 Import ListNotations.
 Open Scope N_scope.
 Open Scope bool_scope.
@@ -42,6 +49,70 @@ Proof. destruct d; auto. discriminate. Qed.
 Lemma is_reg_not_dir st : is_reg st = true -> st_is_dir st = false.
 Proof. unfold is_reg. rewrite !andb_true_iff, !negb_true_iff. tauto. Qed.
 
+Lemma links_meta_b_sound B : links_meta_b B = true -> links_meta B.
+Proof.
+  unfold links_meta_b, links_meta. rewrite forallb_forall. intros H sb bb st bt Hb Hl Ht Ep.
+  specialize (H _ Hb). simpl in H. rewrite Hl in H. simpl in H. rewrite forallb_forall in H.
+  specialize (H _ Ht). simpl in H. rewrite Ep, bytes_eqb_refl in H. simpl in H.
+  apply ino_meta_eqb_iff; auto.
+Qed.
+
+Lemma link_xattrs_kept_b_sound d A B : link_xattrs_kept_b d A B = true -> link_xattrs_kept d A B.
+Proof.
+  unfold link_xattrs_kept_b, link_xattrs_kept. rewrite forallb_forall.
+  intros H sb bb st bt sa ba Hb Hl Ht Ep Ha Epa Hs.
+  specialize (H _ Hb). simpl in H. rewrite Hl in H. simpl in H. rewrite forallb_forall in H.
+  specialize (H _ Ht). simpl in H. rewrite Ep, bytes_eqb_refl in H. simpl in H. rewrite forallb_forall in H.
+  specialize (H _ Ha). simpl in H. rewrite Epa, Ep, bytes_eqb_refl, Hs in H. simpl in H.
+  apply DiffSpecP.xattrs_eqb_eq; auto.
+Qed.
+
+(* the fields sameFile compares on a non-directory *)
+Lemma sf_fields a b : same_file DMetadata a b = true -> st_is_dir a = false ->
+  st_mode a = st_mode b /\ st_uid a = st_uid b /\ st_gid a = st_gid b /\
+  st_devmajor a = st_devmajor b /\ st_devminor a = st_devminor b /\ st_linkname a = st_linkname b /\
+  st_size a = st_size b /\ st_mtime a = st_mtime b.
+Proof.
+  intros H Hd. simpl in H. rewrite Hd in H. simpl in H.
+  destruct (N.eqb_spec (st_size a) (st_size b)); simpl in H; [|discriminate].
+  destruct (N.eqb_spec (st_mtime a) (st_mtime b)); simpl in H; [|discriminate].
+  unfold compare_stat in H. rewrite !andb_true_iff, !N.eqb_eq, bytes_eqb_eq in H. tauto.
+Qed.
+
+Lemma sf_intro a b : st_is_dir a = false ->
+  st_mode a = st_mode b -> st_uid a = st_uid b -> st_gid a = st_gid b ->
+  st_devmajor a = st_devmajor b -> st_devminor a = st_devminor b -> st_linkname a = st_linkname b ->
+  st_size a = st_size b -> st_mtime a = st_mtime b -> same_file DMetadata a b = true.
+Proof.
+  intros Hd E1 E2 E3 E4 E5 E6 E7 E8. simpl. rewrite Hd. simpl.
+  unfold compare_stat. rewrite E1, E2, E3, E4, E5, E6, E7, E8, !N.eqb_refl, bytes_eqb_refl. reflexivity.
+Qed.
+
+(* a new name of an inode whose entry shows the identity key of [st] shows the key of every
+   honest announcement [b] (same metadata as [st]) *)
+Lemma link_stat_same_file t st b :
+  same_file DMetadata t st = true -> is_reg st = true -> ino_meta_eq st b ->
+  same_file DMetadata (link_stat t b) b = true.
+Proof.
+  intros Hs Hr (M1 & M2 & M3 & M4 & M5 & M6 & M7 & _).
+  assert (Hrt : is_reg t = true) by (rewrite (is_reg_mode_eq t st (same_file_mode _ _ _ Hs)); exact Hr).
+  pose proof (is_reg_not_dir _ Hrt) as Hdt.
+  destruct (sf_fields _ _ Hs Hdt) as (F1 & F2 & F3 & F4 & F5 & _ & F7 & F8).
+  unfold link_stat. rewrite Hrt. apply sf_intro; simpl; try congruence.
+  exact Hdt.
+Qed.
+
+Lemma honest_change_nonlink D k p st : is_hardlink st = false -> honest_change D (k, p, Some st) = true.
+Proof. intros Hl. unfold honest_change, honest_change_by. rewrite Hl. destruct k; reflexivity. Qed.
+
+Lemma honest_change_link_intro D k p st t :
+  alookup (st_linkname st) D = Some t -> link_stat (de_stat t) st = st -> honest_change D (k, p, Some st) = true.
+Proof.
+  intros Ht E. unfold honest_change, honest_change_by. rewrite Ht, E.
+  assert (X : stat_eqb st st = true) by (apply DiffSpecP.stat_eqb_eq; reflexivity).
+  rewrite X. destruct k; destruct (is_hardlink st); reflexivity.
+Qed.
+
 Section Conv.
 Variable d : differ.
 Variables A B : list entry.
@@ -58,6 +129,10 @@ Hypothesis HcB : closed LB.
 Hypothesis Hlinks : links_ok B.
 Hypothesis Hfaith : identity_faithful d A B.
 Variable n0 : N.     (* inode classes >= n0 are new *)
+(* honesty of the hard-link entries, as far as it is known *)
+Variables Mh Xh : Prop.
+Hypothesis Hmeta : Mh -> links_meta B.
+Hypothesis Hxkept : Xh -> link_xattrs_kept d A B.
 
 Notation removed_root := (removed_root idf LA LB).
 Notation run := (run idf d LA LB).
@@ -138,13 +213,37 @@ Notation unchanged := (AbsDest.unchanged d A B).
 Notation fresh_target := (AbsDest.fresh_target d A B).
 Notation fresh_entry := (AbsDest.fresh_entry B n0).
 
+(* some hard-link entry of the source names p *)
+Definition is_link_target (p : bytes) : Prop :=
+  exists l bl, In (l, bl) B /\ is_hardlink l = true /\ st_linkname l = p.
+
+(* what a passed path holds: the source's entry — as far as the honesty of the sender is known *)
+Definition veq (o : option dentry) (e : option entry) : Prop :=
+  match o, e with
+  | None, None => True
+  | Some x, Some (sb, bb) =>
+      ((is_hardlink sb = false \/ Mh) -> same_file DMetadata (de_stat x) sb = true) /\
+      st_is_dir (de_stat x) = st_is_dir sb /\
+      (is_reg sb = true -> de_bytes x = bb) /\
+      (Mh -> Xh -> is_link_target (st_path sb) -> ino_meta_eq (de_stat x) sb)
+  | _, _ => False
+  end.
+
 Record dinv (D : dmap) (R : list stat) : Prop := {
   dv_M : forall p, In p (paths LA) \/ In p (paths LB) -> In p (paths R) \/ done R p;
-  dv_P1 : forall p, done R p -> view_equiv (alookup p D) (efind p B);
+  dv_P1 : forall p, done R p -> veq (alookup p D) (efind p B);
   dv_P2a : forall p, pending R p -> hidden_done R p -> alookup p D = None;
   dv_P2b : forall p, pending R p -> ~ hidden_done R p -> alookup p D = alookup p D0;
   dv_P3 : forall p, done R p -> unchanged p -> alookup p D = alookup p D0;
-  dv_P4 : forall p, done R p -> fresh_target p -> fresh_entry p (alookup p D) }.
+  dv_P4 : forall p, done R p -> fresh_target p -> fresh_entry p (alookup p D);
+  dv_P6 : forall p, done R p -> link_changed d A B p -> joined_entry B D p }.
+
+(* a hard-link entry names an earlier path *)
+Lemma link_before b : In b LB -> is_hardlink b = true -> compare_path (st_linkname b) (st_path b) = Lt.
+Proof.
+  intros Hb Hl. apply in_map_iff in Hb. destruct Hb as ([b' bb] & E & Hin). simpl in E. subst b'.
+  destruct (Hlinks _ _ Hin Hl) as (st & bt & _ & Ep & Hlt & _). rewrite <- Ep. exact Hlt.
+Qed.
 
 Definition rr_at (x : bytes) : Prop := exists q, removed_root q /\ st_path q = x.
 
@@ -156,15 +255,16 @@ Lemma step_inv D D' R R' x :
   (forall y, In y R -> compare_path (st_path y) x <> Lt) ->
   (forall y, In y R' -> compare_path x (st_path y) = Lt) ->
   (forall p, at_or_below x p = false -> alookup p D' = alookup p D) ->
-  view_equiv (alookup x D') (efind x B) ->
+  veq (alookup x D') (efind x B) ->
   (forall p, above x p = true -> alookup p D' = None \/ alookup p D' = alookup p D) ->
   (forall p, above x p = true -> rr_at x -> alookup p D' = None) ->
   (forall p, above x p = true -> ~ rr_at x -> alookup p D' = alookup p D \/ alookup p D0 = None) ->
   (unchanged x -> alookup x D' = alookup x D0) ->
   (fresh_target x -> fresh_entry x (alookup x D')) ->
+  (link_changed d A B x -> joined_entry B D' x) ->
   dinv D' R'.
 Proof.
-  intros [M P1 P2a P2b P3 P4] Hsub Hcov Hx Hmin Hlt E1 E3 E4a E4b E4c E5 E6.
+  intros [M P1 P2a P2b P3 P4 P6] Hsub Hcov Hx Hmin Hlt E1 E3 E4a E4b E4c E5 E6 E7.
   assert (Hdone_mono : forall p, done R p -> done R' p) by (intros p Hd y Hy; apply Hd, Hsub, Hy).
   assert (Hdone_x : done R' x) by exact Hlt.
   assert (Hpend_le : forall p, pending R p -> compare_path p x <> Lt).
@@ -261,6 +361,18 @@ Proof.
     + destruct (bytes_eqb p x) eqn:Epx; [apply bytes_eqb_eq in Epx; subst; auto|].
       apply bytes_eqb_neq in Epx. destruct (Hnew _ Hd' Hp Epx) as (_ & _ & HnB).
       exfalso. apply HnB. destruct Hft as (b & Hb & <- & _). apply (in_map st_path); auto.
+  - (* P6 *)
+    intros p Hd' Hlc. destruct (done_or_pending R p) as [Hd|Hp].
+    + assert (Hpx : compare_path p x = Lt).
+      { apply in_map_iff in Hx. destruct Hx as (y & <- & Hy). apply Hd; auto. }
+      destruct (P6 p Hd Hlc) as (b & e & t & Hb & Ep & He & Ht & Hi).
+      exists b, e, t. split; auto. split; auto. rewrite !Hlt_frame; auto.
+      destruct Hlc as (b' & Hb' & Ep' & Hl' & _).
+      assert (b' = b) by (apply (sorted_unique LB); auto; congruence). subst b'.
+      eapply compare_path_trans; [|exact Hpx]. rewrite <- Ep. apply link_before; auto.
+    + destruct (bytes_eqb p x) eqn:Epx; [apply bytes_eqb_eq in Epx; subst; auto|].
+      apply bytes_eqb_neq in Epx. destruct (Hnew _ Hd' Hp Epx) as (_ & _ & HnB).
+      exfalso. apply HnB. destruct Hlc as (b & Hb & <- & _). apply (in_map st_path); auto.
 Qed.
 
 
@@ -302,10 +414,28 @@ Qed.
 Lemma new_entry_equiv b e :
   In b LB -> de_stat e = b ->
   (forall bb, In (b, bb) B -> is_reg b = true -> de_bytes e = bb) ->
-  view_equiv (Some e) (efind (st_path b) B).
+  veq (Some e) (efind (st_path b) B).
 Proof.
   intros Hb Es Hbytes. destruct (B_efind _ Hb) as (bb & Hin & Ef). rewrite Ef. simpl. rewrite Es.
-  split; [apply same_file_refl|]. intros Hr. apply Hbytes; auto.
+  split; [intros _; apply same_file_refl|]. split; [reflexivity|].
+  split; [intros Hr; apply Hbytes; auto|]. intros _ _ _. apply ino_meta_eq_refl.
+Qed.
+
+(* the entry written for the hard-link entry b of the source: a new name of the inode shown as t *)
+Lemma link_entry_equiv b e t :
+  In b LB -> is_hardlink b = true -> de_stat e = link_stat (de_stat t) b ->
+  (forall bb, In (b, bb) B -> de_bytes e = bb) ->
+  (Mh -> same_file DMetadata (link_stat (de_stat t) b) b = true) ->
+  (Mh -> Xh -> link_stat (de_stat t) b = b) ->
+  veq (Some e) (efind (st_path b) B).
+Proof.
+  intros Hb Hl Es Hbytes Hkey Hexact. destruct (B_efind _ Hb) as (bb & Hin & Ef). rewrite Ef. simpl. rewrite Es.
+  split; [intros [X|X]; [congruence|auto]|].
+  split.
+  { rewrite (link_stat_not_dir _ _ Hl). unfold is_hardlink in Hl. apply andb_true_iff in Hl.
+    symmetry. apply is_reg_not_dir. tauto. }
+  split; [intros _; apply Hbytes; auto|].
+  intros X Y _. rewrite (Hexact X Y). apply ino_meta_eq_refl.
 Qed.
 
 Lemma src_at b bb : In (b, bb) B -> src (st_path b) = bb.
@@ -318,12 +448,15 @@ Proof.
   unfold is_hardlink, wants_content. intros -> H. simpl in *. apply negb_false_iff in H. exact H.
 Qed.
 
-(* the target of a hard-link entry has been written before the entry is reached *)
+(* the target of a hard-link entry has been written before the entry is reached; with an honest
+   sender the new name shows the identity key / exactly the stat that was announced *)
 Lemma link_target D R b :
   dinv D R -> (forall y, In y R -> compare_path (st_path y) (st_path b) <> Lt) ->
   In b LB -> is_hardlink b = true ->
   exists t, alookup (st_linkname b) D = Some t /\ st_is_dir (de_stat t) = false /\
-            forall bb, In (b, bb) B -> de_bytes t = bb.
+            (forall bb, In (b, bb) B -> de_bytes t = bb) /\
+            (Mh -> same_file DMetadata (link_stat (de_stat t) b) b = true) /\
+            (Mh -> Xh -> link_stat (de_stat t) b = b).
 Proof.
   intros HD Hmin Hb Hl. destruct (B_efind _ Hb) as (bb & Hin & _).
   destruct (Hlinks _ _ Hin Hl) as (st & bt & Hint & Ep & Hlt & Hreg & Ebt).
@@ -332,11 +465,34 @@ Proof.
   pose proof (dv_P1 _ _ HD _ Hd) as Hv.
   pose proof (efind_in_sorted B (st, bt) HsB Hint) as Ef. simpl in Ef. rewrite Ef in Hv.
   rewrite Ep in Hv. destruct (alookup (st_linkname b) D) as [t|]; [|destruct Hv].
-  destruct Hv as [Hs Hb2]. exists t. split; auto. split.
-  - rewrite (same_file_is_dir _ _ _ Hs). apply is_reg_not_dir; auto.
+  destruct Hv as (Hs & Hdir & Hb2 & Hmx). exists t. split; auto. split; [|split; [|split]].
+  - rewrite Hdir. apply is_reg_not_dir; auto.
   - intros bb' Hin'. rewrite (Hb2 Hreg). subst bt.
     pose proof (efind_in_sorted B (b, bb) HsB Hin) as E1. pose proof (efind_in_sorted B (b, bb') HsB Hin') as E2.
     simpl in E1, E2. congruence.
+  - intros X. apply (link_stat_same_file _ st); auto.
+    apply (Hmeta X b bb st bt); auto.
+  - intros X Y. apply link_stat_honest. eapply ino_meta_eq_trans.
+    + apply Hmx; auto. exists b, bb. auto.
+    + apply (Hmeta X b bb st bt); auto.
+Qed.
+
+(* an entry that stays in place and is named by a hard-link entry of an honest source already
+   shows the metadata of the source's entry *)
+Lemma unchanged_meta a b :
+  In a LA -> In b LB -> st_path a = st_path b -> same_file d a b = true ->
+  Mh -> Xh -> is_link_target (st_path b) -> ino_meta_eq a b.
+Proof.
+  intros Ha Hb Ep Hs X Y (l & bl & Hl & Hhl & Eln).
+  destruct (Hlinks _ _ Hl Hhl) as (st & bt & Hint & Ept & _ & Hreg & _).
+  assert (st = b) by (apply (sorted_unique LB); auto; [apply (in_map fst _ _ Hint)|congruence]). subst st.
+  apply in_map_iff in Ha. destruct Ha as ([a' ba] & E1 & Ha). simpl in E1. subst a'.
+  pose proof (Hxkept Y l bl b bt a ba Hl Hhl Hint Ept Ha Ep Hs) as Exa.
+  pose proof (same_file_DMetadata _ _ _ Hs) as Hs'.
+  assert (Hda : st_is_dir a = false).
+  { rewrite (same_file_is_dir _ _ _ Hs). apply is_reg_not_dir; auto. }
+  destruct (sf_fields _ _ Hs' Hda) as (F1 & F2 & F3 & F4 & F5 & _ & F7 & F8).
+  unfold ino_meta_eq. repeat split; auto.
 Qed.
 
 Lemma min_head_A a A' B' :
@@ -359,12 +515,13 @@ Qed.
 
 Lemma run_apply A' B' out : run A' B' out -> sorted A' -> sorted B' ->
   forall D next, n0 <= next -> dinv D (A' ++ B') ->
-  exists D' next', apply_all src out D next = (D', next', out, false) /\ dinv D' [].
+  exists D' next', apply_all src out D next = (D', next', out, false) /\ dinv D' [] /\
+                   (Mh -> Xh -> honest_run src out D next = true).
 Proof.
   induction 1 as [|a A' B' out Ha HnB Hh HaB R IH|a A' B' out Ha HnB Hh HaB R IH
                  |b A' B' out Hb HnA HbA R IH|a b A' B' out Ha Hb E Hs R IH|a b A' B' out Ha Hb E Hs R IH];
     intros SA SB D next Hnx HD.
-  - exists D, next. split; [reflexivity|exact HD].
+  - exists D, next. split; [reflexivity|]. split; [exact HD|reflexivity].
   - (* delete suppressed: nothing is applied *)
     pose proof (min_head_A _ _ _ SA HaB) as Hmin. pose proof (lt_rest_A _ _ _ SA HaB) as Hlt.
     apply sorted_inv in SA. destruct SA as [SA _].
@@ -386,11 +543,12 @@ Proof.
     + intros p Hp _. destruct (Hhd p (or_intror Hp)) as [H1 H2]. apply (dv_P2a _ _ HD _ H1 H2).
     + intros (a' & b' & _ & Hb' & _ & Eb' & _). exfalso. eapply HnB; eauto.
     + intros (b' & Hb' & Eb' & _). exfalso. eapply HnB; eauto.
+    + intros (b' & Hb' & Eb' & _). exfalso. eapply HnB; eauto.
   - (* delete *)
     pose proof (min_head_A _ _ _ SA HaB) as Hmin. pose proof (lt_rest_A _ _ _ SA HaB) as Hlt.
     apply sorted_inv in SA. destruct SA as [SA _].
     set (D1 := aremove_if (at_or_below (st_path a)) D).
-    destruct (IH SA SB D1 next Hnx) as (D' & n' & Eap & HD').
+    destruct (IH SA SB D1 next Hnx) as (D' & n' & Eap & HD' & Hhon).
     { apply (step_inv D D1 ((a :: A') ++ B') (A' ++ B') (st_path a)); auto.
       - intros y Hy. right. exact Hy.
       - intros p Hp. simpl in Hp. destruct Hp; auto.
@@ -404,8 +562,10 @@ Proof.
         + exfalso. apply Hnrr. exists a. split; auto. split; auto.
         + eapply D0_below_nondir; eauto.
       - intros (a' & b' & _ & Hb' & _ & Eb' & _). exfalso. eapply HnB; eauto.
+      - intros (b' & Hb' & Eb' & _). exfalso. eapply HnB; eauto.
       - intros (b' & Hb' & Eb' & _). exfalso. eapply HnB; eauto. }
-    exists D', n'. split; auto. simpl. fold D1. rewrite Eap. reflexivity.
+    exists D', n'. split; [simpl; fold D1; rewrite Eap; reflexivity|]. split; [exact HD'|].
+    intros X Y. unfold honest_run. cbn [honest_run_by apply_map]. fold D1. exact (Hhon X Y).
   - (* add *)
     assert (Hmin : forall y, In y (A' ++ b :: B') -> compare_path (st_path y) (st_path b) <> Lt).
     { intros y Hy. apply sorted_inv in SB. destruct SB as [_ HbB].
@@ -422,33 +582,46 @@ Proof.
     (* the entry written *)
     assert (Hent : exists e n1,
               apply_map src D next (KAdd, st_path b, Some b) = Some (aset (st_path b) e D, n1) /\
-              de_stat e = b /\ (forall bb, In (b, bb) B -> is_reg b = true -> de_bytes e = bb) /\
-              n0 <= n1 /\ (is_hardlink b = false -> n0 <= de_ino e)).
-    { simpl. rewrite Hold. destruct (is_hardlink b) eqn:Ehl.
-      - destruct (link_target D _ b HD Hmin Hb Ehl) as (t & Et & Hdt & Hbt). rewrite Et, Hdt.
-        eexists; eexists. split; [reflexivity|]. split; [reflexivity|]. simpl.
-        split; [intros bb Hin _; apply Hbt; auto|]. split; [exact Hnx|discriminate].
-      - eexists; eexists. split; [reflexivity|]. split; [reflexivity|]. simpl. split.
-        + intros bb Hin Hr. rewrite (not_hardlink_wants _ Hr Ehl). apply src_at; auto.
-        + split; [|intros _; exact Hnx]. etransitivity; [exact Hnx|apply N.le_add_r]. }
-    destruct Hent as (e & n1 & Eap & Es & Hbytes & Hn1 & Hino).
+              veq (Some e) (efind (st_path b) B) /\ (is_hardlink b = false -> de_stat e = b) /\
+              n0 <= n1 /\ (is_hardlink b = false -> n0 <= de_ino e) /\
+              (Mh -> Xh -> honest_change D (KAdd, st_path b, Some b) = true) /\
+              (is_hardlink b = true -> exists t, alookup (st_linkname b) D = Some t /\ de_ino e = de_ino t /\
+                                                 de_bytes e = de_bytes t /\ de_stat e = link_stat (de_stat t) b)).
+    { cbn [apply_map]. rewrite Hold. destruct (is_hardlink b) eqn:Ehl.
+      - destruct (link_target D _ b HD Hmin Hb Ehl) as (t & Et & Hdt & Hbt & Hkey & Hexact). rewrite Et, Hdt.
+        eexists; eexists. split; [reflexivity|]. split.
+        { apply (link_entry_equiv b _ t); auto. }
+        split; [discriminate|]. split; [exact Hnx|]. split; [discriminate|].
+        split; [intros X Y; apply (honest_change_link_intro D KAdd (st_path b) b t Et); auto|].
+        intros _. exists t. auto.
+      - eexists; eexists. split; [reflexivity|]. split.
+        { apply new_entry_equiv; auto. simpl. intros bb Hin Hr. rewrite (not_hardlink_wants _ Hr Ehl). apply src_at; auto. }
+        split; [reflexivity|]. split; [etransitivity; [exact Hnx|apply N.le_add_r]|].
+        split; [intros _; exact Hnx|]. split; [intros _ _; apply honest_change_nonlink; auto|discriminate]. }
+    destruct Hent as (e & n1 & Eap & Hveq & Es & Hn1 & Hino & Hhc & Hjoin).
     apply sorted_inv in SB. destruct SB as [SB _].
-    destruct (IH SA SB (aset (st_path b) e D) n1 Hn1) as (D' & n' & Eall & HD').
+    destruct (IH SA SB (aset (st_path b) e D) n1 Hn1) as (D' & n' & Eall & HD' & Hhon).
     { apply (step_inv D _ (A' ++ b :: B') (A' ++ B') (st_path b)); auto.
       - intros y Hy. apply in_app_or in Hy. apply in_or_app. destruct Hy; auto. right. right. auto.
       - intros p Hp. unfold paths in Hp. rewrite map_app in Hp. apply in_app_or in Hp.
         unfold paths. rewrite map_app. destruct Hp as [Hp|[Hp|Hp]]; auto; right; apply in_or_app; auto.
       - intros p Hp. apply alookup_aset_other. intros Ep. subst p. unfold at_or_below in Hp.
         rewrite bytes_eqb_refl in Hp. discriminate.
-      - rewrite alookup_aset_same. apply new_entry_equiv; auto.
+      - rewrite alookup_aset_same. exact Hveq.
       - intros p Hp. right. apply alookup_aset_other. apply compare_path_lt_neq, above_lt; auto.
       - intros p Hp (q & (Hq & _) & Eq). exfalso. eapply HnA; eauto.
       - intros p Hp _. left. apply alookup_aset_other. apply compare_path_lt_neq, above_lt; auto.
       - intros (a' & b' & Ha' & _ & Ea' & _). exfalso. eapply HnA; eauto.
       - intros (b' & Hb' & Eb' & Hl' & _).
         assert (b' = b) by (apply (sorted_unique LB); auto). subst b'.
-        exists e, b. rewrite alookup_aset_same. repeat split; auto. }
-    exists D', n'. split; auto. cbn [apply_all]. rewrite Eap, Eall. reflexivity.
+        exists e, b. rewrite alookup_aset_same. repeat split; auto.
+      - intros (b' & Hb' & Eb' & Hl' & _).
+        assert (b' = b) by (apply (sorted_unique LB); auto). subst b'.
+        destruct (Hjoin Hl') as (t & Ht & Hi). exists b, e, t. split; auto. split; auto.
+        rewrite alookup_aset_same. split; auto. split; auto.
+        rewrite alookup_aset_other; auto. apply not_eq_sym, compare_path_lt_neq, link_before; auto. }
+    exists D', n'. split; [cbn [apply_all]; rewrite Eap, Eall; reflexivity|]. split; [exact HD'|].
+    intros X Y. unfold honest_run. cbn [honest_run_by]. rewrite Eap. apply andb_true_iff. split; [exact (Hhc X Y)|exact (Hhon X Y)].
   - (* unchanged *)
     assert (HaB : forall y, In y B' -> plt a y).
     { intros y Hy. apply sorted_inv in SB. destruct SB as [_ HbB]. unfold plt. rewrite E. apply HbB; auto. }
@@ -470,14 +643,20 @@ Proof.
       destruct Hp as [Hp|Hp]; auto. apply in_app_or in Hp. unfold paths. rewrite map_app.
       destruct Hp as [Hp|[Hp|Hp]]; [right; apply in_or_app; auto|left; congruence|right; apply in_or_app; auto].
     + left. reflexivity.
-    + rewrite Hold, ED0, E. destruct (B_efind _ Hb) as (bb & HinB & Ef). rewrite Ef. simpl. split.
-      * eapply same_file_DMetadata; eauto.
+    + rewrite Hold, ED0, E. destruct (B_efind _ Hb) as (bb & HinB & Ef). rewrite Ef. simpl. split; [|split; [|split]].
+      * intros _. eapply same_file_DMetadata; eauto.
+      * eapply same_file_is_dir; eauto.
       * intros Hr. eapply Hfaith; eauto.
+      * intros X Y Ht. apply unchanged_meta; auto.
     + intros p Hp Hrr. exfalso. destruct (rr_at_inv a Ha Hrr) as (Hd & [Hn|(b' & Hb' & Eb' & Hdb')]).
       * eapply Hn; eauto.
       * assert (b' = b) by (apply (sorted_unique LB); auto; congruence). subst b'.
         rewrite (same_file_is_dir _ _ _ Hs) in Hd. congruence.
     + intros (b' & Hb' & Eb' & _ & [Hn'|(a' & Ha' & Ea' & Hs' & _)]).
+      * exfalso. eapply Hn'; eauto.
+      * assert (b' = b) by (apply (sorted_unique LB); auto; congruence).
+        assert (a' = a) by (apply (sorted_unique LA); auto). subst. simpl in Hs. congruence.
+    + intros (b' & Hb' & Eb' & _ & [Hn'|(a' & Ha' & Ea' & Hs')]).
       * exfalso. eapply Hn'; eauto.
       * assert (b' = b) by (apply (sorted_unique LB); auto; congruence).
         assert (a' = a) by (apply (sorted_unique LA); auto). subst. simpl in Hs. congruence.
@@ -498,16 +677,23 @@ Proof.
     (* what HandleChange does at this path: an entry for b is set, over D or over D minus the subtree *)
     assert (Hent : exists e n1 D1,
               apply_map src D next (KModify, st_path b, Some b) = Some (aset (st_path a) e D1, n1) /\
-              de_stat e = b /\ (forall bb, In (b, bb) B -> is_reg b = true -> de_bytes e = bb) /\
+              veq (Some e) (efind (st_path b) B) /\ (is_hardlink b = false -> de_stat e = b) /\
+              (Mh -> Xh -> honest_change D (KModify, st_path b, Some b) = true) /\
+              (is_hardlink b = true -> exists t, alookup (st_linkname b) D = Some t /\ de_ino e = de_ino t /\
+                                                 de_bytes e = de_bytes t /\ de_stat e = link_stat (de_stat t) b) /\
               (D1 = D \/ (D1 = aremove_if (at_or_below (st_path a)) D /\ st_is_dir a <> st_is_dir b)) /\
               (st_is_dir a = true -> st_is_dir b = false -> D1 = aremove_if (at_or_below (st_path a)) D) /\
               n0 <= n1 /\ (is_hardlink b = false -> (st_is_dir a && st_is_dir b) = false -> n0 <= de_ino e)).
-    { simpl. rewrite <- E, Hold. simpl de_stat. destruct (st_is_dir b && st_is_dir a) eqn:Edd.
+    { cbn [apply_map]. rewrite <- E, Hold. cbn [de_stat de_bytes de_ino]. destruct (st_is_dir b && st_is_dir a) eqn:Edd.
       - apply andb_true_iff in Edd. destruct Edd as [Ed1 Ed2].
-        eexists; eexists; exists D. split; [reflexivity|]. split; [reflexivity|]. split.
-        + simpl. intros bb _ Hr. apply is_reg_not_dir in Hr. congruence.
-        + split; auto. split; [intros _ Hd; congruence|]. split; [exact Hnx|].
-          intros _ Hdd. rewrite Ed1, Ed2 in Hdd. discriminate.
+        assert (Ehl : is_hardlink b = false).
+        { unfold is_hardlink, is_reg. rewrite Ed1. reflexivity. }
+        eexists; eexists; exists D. split; [reflexivity|]. split.
+        { rewrite E. apply (new_entry_equiv b); auto. simpl. intros bb _ Hr. apply is_reg_not_dir in Hr. congruence. }
+        split; [reflexivity|]. split; [intros _ _; apply honest_change_nonlink; auto|].
+        split; [congruence|].
+        split; auto. split; [intros _ Hd; congruence|]. split; [exact Hnx|].
+        intros _ Hdd. rewrite Ed1, Ed2 in Hdd. discriminate.
       - assert (HD1 : forall X : dmap, (X = D \/ (X = aremove_if (at_or_below (st_path a)) D /\ st_is_dir a <> st_is_dir b)) ->
                   X = (if Bool.eqb (st_is_dir a) (st_is_dir b) then D else aremove_if (at_or_below (st_path a)) D) ->
                   (st_is_dir a = true -> st_is_dir b = false -> X = aremove_if (at_or_below (st_path a)) D)).
@@ -517,21 +703,26 @@ Proof.
                           = aremove_if (at_or_below (st_path a)) D /\ st_is_dir a <> st_is_dir b)).
         { destruct (st_is_dir a), (st_is_dir b); simpl; auto; right; split; auto; discriminate. }
         destruct (is_hardlink b) eqn:Ehl.
-        + destruct (link_target D _ b HD Hmin' Hb Ehl) as (t & Et & Hdt & Hbt). rewrite Et, Hdt.
-          eexists; eexists; eexists. split; [reflexivity|]. split; [reflexivity|]. split.
-          * simpl. intros bb Hin _. apply Hbt; auto.
-          * split; [exact HD1'|]. split; [apply HD1; auto|]. split; [exact Hnx|discriminate].
-        + eexists; eexists; eexists. split; [reflexivity|]. split; [reflexivity|]. split.
-          * simpl. intros bb Hin Hr. rewrite (not_hardlink_wants _ Hr Ehl). rewrite E. apply src_at; auto.
-          * split; [exact HD1'|]. split; [apply HD1; auto|]. split; [|intros _ _; exact Hnx].
-            etransitivity; [exact Hnx|apply N.le_add_r]. }
-    destruct Hent as (e & n1 & D1 & Eap & Es & Hbytes & HD1 & HD1rr & Hn1 & Hino).
+        + destruct (link_target D _ b HD Hmin' Hb Ehl) as (t & Et & Hdt & Hbt & Hkey & Hexact). rewrite Et, Hdt.
+          eexists; eexists; eexists. split; [reflexivity|]. split.
+          { rewrite E. apply (link_entry_equiv b _ t); auto. }
+          split; [discriminate|].
+          split; [intros X Y; apply (honest_change_link_intro D KModify _ b t Et); auto|].
+          split; [intros _; exists t; auto|].
+          split; [exact HD1'|]. split; [apply HD1; auto|]. split; [exact Hnx|discriminate].
+        + eexists; eexists; eexists. split; [reflexivity|]. split.
+          { rewrite E. apply (new_entry_equiv b); auto. simpl. intros bb Hin Hr. rewrite (not_hardlink_wants _ Hr Ehl). apply src_at; auto. }
+          split; [reflexivity|]. split; [intros _ _; apply honest_change_nonlink; auto|].
+          split; [discriminate|].
+          split; [exact HD1'|]. split; [apply HD1; auto|]. split; [|intros _ _; exact Hnx].
+          etransitivity; [exact Hnx|apply N.le_add_r]. }
+    destruct Hent as (e & n1 & D1 & Eap & Hveq & Es & Hhc & Hjoin & HD1 & HD1rr & Hn1 & Hino).
     assert (Hrr : rr_at (st_path a) -> st_is_dir a = true /\ st_is_dir b = false).
     { intros Hr. destruct (rr_at_inv a Ha Hr) as (Hd & [Hn|(b' & Hb' & Eb' & Hdb')]).
       - exfalso. eapply Hn; eauto.
       - assert (b' = b) by (apply (sorted_unique LB); auto; congruence). subst b'. auto. }
     apply sorted_inv in SA, SB. destruct SA as [SA _], SB as [SB _].
-    destruct (IH SA SB (aset (st_path a) e D1) n1 Hn1) as (D' & n' & Eall & HD').
+    destruct (IH SA SB (aset (st_path a) e D1) n1 Hn1) as (D' & n' & Eall & HD' & Hhon).
     { apply (step_inv D _ ((a :: A') ++ b :: B') (A' ++ B') (st_path a)); auto.
       - intros y Hy. apply in_app_or in Hy. destruct Hy; [right; apply in_or_app; auto|].
         right. apply in_or_app. right. right. auto.
@@ -542,7 +733,7 @@ Proof.
       - intros p Hp. rewrite alookup_aset_other.
         + destruct HD1 as [->|[-> _]]; auto. rewrite alookup_aremove_if, Hp. reflexivity.
         + intros Ep. subst p. unfold at_or_below in Hp. rewrite bytes_eqb_refl in Hp. discriminate.
-      - rewrite alookup_aset_same, E. apply new_entry_equiv; auto.
+      - rewrite alookup_aset_same, E. exact Hveq.
       - intros p Hp. rewrite alookup_aset_other by (apply compare_path_lt_neq, above_lt; auto).
         destruct HD1 as [->|[-> _]]; auto. left. rewrite alookup_aremove_if. unfold at_or_below.
         rewrite Hp, orb_true_r. reflexivity.
@@ -563,8 +754,18 @@ Proof.
         exists e, b. rewrite alookup_aset_same. split; auto. split; auto. split; auto. split; auto.
         apply Hino; auto. destruct Hch as [Hn'|(a' & Ha' & Ea' & _ & Hdd)].
         + exfalso. eapply Hn'; eauto.
-        + assert (a' = a) by (apply (sorted_unique LA); auto; congruence). subst. exact Hdd. }
-    exists D', n'. split; auto. cbn [apply_all]. rewrite Eap, Eall. reflexivity.
+        + assert (a' = a) by (apply (sorted_unique LA); auto; congruence). subst. exact Hdd.
+      - intros (b' & Hb' & Eb' & Hl' & _).
+        assert (b' = b) by (apply (sorted_unique LB); auto; congruence). subst b'.
+        destruct (Hjoin Hl') as (t & Ht & Hi). exists b, e, t. split; auto. split; auto.
+        rewrite alookup_aset_same. split; auto. split; auto.
+        pose proof (link_before b Hb Hl') as Hlb.
+        rewrite alookup_aset_other by (rewrite E; apply not_eq_sym, compare_path_lt_neq; exact Hlb).
+        destruct HD1 as [->|[-> _]]; auto. rewrite alookup_aremove_if.
+        destruct (at_or_below (st_path a) (st_linkname b)) eqn:Ab; auto.
+        apply at_or_below_le in Ab. rewrite E in Ab. congruence. }
+    exists D', n'. split; [cbn [apply_all]; rewrite Eap, Eall; reflexivity|]. split; [exact HD'|].
+    intros X Y. unfold honest_run. cbn [honest_run_by]. rewrite Eap. apply andb_true_iff. split; [exact (Hhc X Y)|exact (Hhon X Y)].
 Qed.
 
 End Conv.
@@ -589,18 +790,21 @@ Lemma receive_abs_unfold m :
      ds_notifs := map (notif_of (src_of B) H hdr) dn; ds_changes := dn; ds_err := e |}.
 Proof. intros LA' cs D n dn e E. unfold receive_abs. fold LA'. fold cs. rewrite E. reflexivity. Qed.
 
-(* C05, unconditional part: whatever the listings, whatever the mode, even when the transfer
-   stops on an error, replaying the notifications on the consumer's view of the old
-   destination gives the consumer's view of the destination as the writer left it *)
+(* C05, part without hypotheses on the listings: whatever the listings, whatever the mode, even
+   when the transfer stops on an error — provided every hard-link entry the writer applies
+   carries the metadata of the inode it joins — replaying the notifications on the consumer's
+   view of the old destination gives the consumer's view of the destination as the writer
+   left it *)
 Theorem notify_replays_any m :
+  recv_honest m d A B = true ->
   let r := receive_abs H hdr m d A B in
   replay (ds_notifs r) (nview H hdr (dest_of A)) = nview H hdr (ds_map r).
 Proof.
-  cbv zeta.
+  intros Hh. cbv zeta.
   destruct (apply_all (src_of B) (diff idf d (match m with Fresh => LA | Merge => [] end) LB)
               (dest_of A) (N.of_nat (length A))) as [[[D n] dn] e] eqn:E.
   rewrite (receive_abs_unfold m D n dn e E). simpl.
-  destruct (apply_all_spec _ H hdr _ _ _ _ _ _ _ E) as [_ Hr]. exact Hr.
+  destruct (apply_all_spec _ H hdr _ _ _ _ _ _ _ E) as [_ Hr]. exact (Hr Hh).
 Qed.
 
 Hypothesis HwA : wf_listing LA.
@@ -608,7 +812,12 @@ Hypothesis HwB : wf_listing LB.
 Hypothesis Hlinks : links_ok B.
 Hypothesis Hfaith : identity_faithful d A B.
 
-Lemma dinv_init n0 : dinv d A B n0 (dest_of A) (LA ++ LB).
+Section Honesty.
+Variables Mh Xh : Prop.
+Hypothesis Hmeta : Mh -> links_meta B.
+Hypothesis Hxkept : Xh -> link_xattrs_kept d A B.
+
+Lemma dinv_init n0 : dinv d A B n0 Mh Xh (dest_of A) (LA ++ LB).
 Proof.
   destruct HwA as [HsA HcA]. destruct HwB as [HsB HcB].
   assert (Hnot : forall p, done (LA ++ LB) p -> notin LA p /\ notin LB p).
@@ -623,11 +832,72 @@ Proof.
   - reflexivity.
   - intros p Hd (a & _ & Ha & _ & Ea & _). destruct (Hnot _ Hd) as [HnA _]. exfalso. eapply HnA; eauto.
   - intros p Hd (b & Hb & Eb & _). destruct (Hnot _ Hd) as [_ HnB]. exfalso. eapply HnB; eauto.
+  - intros p Hd (b & Hb & Eb & _). destruct (Hnot _ Hd) as [_ HnB]. exfalso. eapply HnB; eauto.
 Qed.
 
 (* the transfer does not fail, hands exactly the diff to the writer, converges to the
-   source's view and leaves every unchanged entry literally in place *)
+   source's view — as far as the honesty of its hard-link entries is known — and leaves every
+   unchanged entry literally in place; with an honest sender every hard-link change is honest *)
+Theorem receive_fresh_gen :
+  let r := receive_abs H hdr Fresh d A B in
+  ds_err r = false /\
+  ds_changes r = diff idf d LA LB /\
+  (forall p, veq B Mh Xh (alookup p (ds_map r)) (efind p B)) /\
+  (forall p, unchanged d A B p -> alookup p (ds_map r) = alookup p (dest_of A)) /\
+  (forall p, fresh_target d A B p -> fresh_entry B (N.of_nat (length A)) p (alookup p (ds_map r))) /\
+  (Mh -> Xh -> recv_honest Fresh d A B = true) /\
+  (forall p, link_changed d A B p -> joined_entry B (ds_map r) p).
+Proof.
+  cbv zeta. destruct HwA as [HsA HcA]. destruct HwB as [HsB HcB].
+  pose proof (diff_run idf d LA LB HsA HsB HcB (fun s => eq_refl)) as Hrun.
+  destruct (run_apply d A B HsA HcA HsB HcB Hlinks Hfaith (N.of_nat (length A)) Mh Xh Hmeta Hxkept _ _ _ Hrun HsA HsB
+              (dest_of A) (N.of_nat (length A)) (N.le_refl _) (dinv_init _))
+    as (D' & n' & Eap & HD' & Hhon).
+  rewrite (receive_abs_unfold Fresh D' n' _ false Eap). simpl.
+  split; auto. split; auto. split; [|split; [|split; [|split]]].
+  - intros p. apply (dv_P1 _ _ _ _ _ _ _ _ HD'). intros y [].
+  - intros p Hu. apply (dv_P3 _ _ _ _ _ _ _ _ HD'); auto. intros y [].
+  - intros p Hf. apply (dv_P4 _ _ _ _ _ _ _ _ HD'); auto. intros y [].
+  - exact Hhon.
+  - intros p Hl. apply (dv_P6 _ _ _ _ _ _ _ _ HD'); auto. intros y [].
+Qed.
+
+End Honesty.
+
+(* without any hypothesis on the metadata of the hard-link entries: no claim on the identity key
+   a hard-link path ends up with (AbsDest.view_equiv_w) *)
+Theorem receive_fresh_weak :
+  let r := receive_abs H hdr Fresh d A B in
+  ds_err r = false /\
+  ds_changes r = diff idf d LA LB /\
+  (forall p, view_equiv_w (alookup p (ds_map r)) (efind p B)) /\
+  (forall p, unchanged d A B p -> alookup p (ds_map r) = alookup p (dest_of A)) /\
+  (forall p, fresh_target d A B p -> fresh_entry B (N.of_nat (length A)) p (alookup p (ds_map r))).
+Proof.
+  cbv zeta.
+  destruct (receive_fresh_gen False False (fun X : False => match X with end) (fun X : False => match X with end))
+    as (H1 & H2 & H3 & H4 & H5 & _).
+  split; auto. split; auto. split; [|auto].
+  intros p. specialize (H3 p). destruct (alookup p _) as [x|], (efind p B) as [[sb bb]|]; simpl in *; auto.
+  destruct H3 as (K1 & K2 & K3 & _). auto.
+Qed.
+
+(* a hard-link entry that is new or changed ends up as one more name of the inode shown at the
+   path it names — inode class, bytes and THAT inode's metadata — whatever it announced *)
+Theorem hard_link_joins_inode_proof :
+  let r := receive_abs H hdr Fresh d A B in
+  forall p, link_changed d A B p -> joined_entry B (ds_map r) p.
+Proof.
+  cbv zeta.
+  destruct (receive_fresh_gen False False (fun X : False => match X with end) (fun X : False => match X with end))
+    as (_ & _ & _ & _ & _ & _ & Hj). exact Hj.
+Qed.
+
+(* honest sender (hard-link entries carry the metadata of the entry they name): every path ends
+   up with the source's identity key.  (Statement of receive_fresh_proof before the hard-link
+   metadata became that of the inode, plus the hypothesis [links_meta].) *)
 Theorem receive_fresh_proof :
+  links_meta B ->
   let r := receive_abs H hdr Fresh d A B in
   ds_err r = false /\
   ds_changes r = diff idf d LA LB /\
@@ -635,16 +905,21 @@ Theorem receive_fresh_proof :
   (forall p, unchanged d A B p -> alookup p (ds_map r) = alookup p (dest_of A)) /\
   (forall p, fresh_target d A B p -> fresh_entry B (N.of_nat (length A)) p (alookup p (ds_map r))).
 Proof.
-  cbv zeta. destruct HwA as [HsA HcA]. destruct HwB as [HsB HcB].
-  pose proof (diff_run idf d LA LB HsA HsB HcB (fun s => eq_refl)) as Hrun.
-  destruct (run_apply d A B HsA HcA HsB HcB Hlinks Hfaith (N.of_nat (length A)) _ _ _ Hrun HsA HsB
-              (dest_of A) (N.of_nat (length A)) (N.le_refl _) (dinv_init _))
-    as (D' & n' & Eap & HD').
-  rewrite (receive_abs_unfold Fresh D' n' _ false Eap). simpl.
-  split; auto. split; auto. split; [|split].
-  - intros p. apply (dv_P1 _ _ _ _ _ _ HD'). intros y [].
-  - intros p Hu. apply (dv_P3 _ _ _ _ _ _ HD'); auto. intros y [].
-  - intros p Hf. apply (dv_P4 _ _ _ _ _ _ HD'); auto. intros y [].
+  intros Hmeta. cbv zeta.
+  destruct (receive_fresh_gen True False (fun _ => Hmeta) (fun X : False => match X with end))
+    as (H1 & H2 & H3 & H4 & H5 & _).
+  split; auto. split; auto. split; [|auto].
+  intros p. specialize (H3 p). destruct (alookup p _) as [x|], (efind p B) as [[sb bb]|]; simpl in *; auto.
+  destruct H3 as (K1 & _ & K3 & _). auto.
+Qed.
+
+(* ... and when moreover the link targets that stay in place have the source's xattrs, every
+   hard-link change is honest: the destination shows exactly the stat that was announced *)
+Theorem receive_fresh_honest :
+  links_meta B -> link_xattrs_kept d A B -> recv_honest Fresh d A B = true.
+Proof.
+  intros Hmeta Hxk.
+  destruct (receive_fresh_gen True True (fun _ => Hmeta) (fun _ => Hxk)) as (_ & _ & _ & _ & _ & Hh & _). auto.
 Qed.
 
 End Top.
@@ -714,7 +989,7 @@ Notation r := (receive_abs H hdr Fresh d A B).
 Theorem reqs_exact_proof : ds_reqs r = reqs_spec d LA LB.
 Proof.
   destruct (receive_abs_proj Fresh) as [E1 _]. rewrite E1.
-  destruct (receive_fresh_proof H hdr d A B HwA HwB Hlinks Hfaith) as (_ & -> & _).
+  destruct (receive_fresh_weak H hdr d A B HwA HwB Hlinks Hfaith) as (_ & -> & _).
   destruct HwA as [HsA HcA]. destruct HwB as [HsB HcB].
   apply (run_reqs d LA LB HsA LA LB). apply diff_run; auto.
 Qed.
@@ -726,7 +1001,7 @@ Theorem notify_exact_proof :
   NoDup (map notif_path (ds_notifs r)).
 Proof.
   destruct (receive_abs_proj Fresh) as [_ E2].
-  destruct (receive_fresh_proof H hdr d A B HwA HwB Hlinks Hfaith) as (He & Ec & _).
+  destruct (receive_fresh_weak H hdr d A B HwA HwB Hlinks Hfaith) as (He & Ec & _).
   rewrite Ec in E2. destruct HwA as [HsA HcA]. destruct HwB as [HsB HcB].
   split; auto. split; auto. rewrite E2. split.
   - intros n. rewrite in_map_iff. split.
@@ -744,14 +1019,14 @@ Theorem notify_digest_proof k p st dg :
 Proof.
   intros Hin. destruct notify_exact_proof as (_ & _ & Hex & _). apply Hex in Hin.
   destruct Hin as (c & Hc & En).
-  destruct (receive_fresh_proof H hdr d A B HwA HwB Hlinks Hfaith) as (_ & _ & Hview & _).
+  destruct (receive_fresh_weak H hdr d A B HwA HwB Hlinks Hfaith) as (_ & _ & Hview & _).
   destruct HwB as [HsB HcB].
   assert (Hb : forall k', c = (k', p, Some st) -> In st LB -> st_path st = p ->
             dg = AbsDest.digest H hdr st (src_of B p) ->
             exists e, alookup p (ds_map r) = Some e /\ dg = H (hdr st ++ (if wants_content st then de_bytes e else []))).
   { intros k' _ Hst Ep Edg. specialize (Hview p). destruct (B_efind B HsB st Hst) as (bb & HinB & Ef).
     rewrite <- Ep in Hview at 2. rewrite Ef in Hview.
-    destruct (alookup p (ds_map r)) as [e|]; [|destruct Hview]. destruct Hview as [_ Hbytes].
+    destruct (alookup p (ds_map r)) as [e|]; [|destruct Hview]. destruct Hview as (_ & _ & Hbytes).
     exists e. split; auto. rewrite Edg. unfold AbsDest.digest. destruct (wants_content st) eqn:Ew; auto.
     rewrite Hbytes.
     - rewrite <- Ep. rewrite (src_at B HsB st bb HinB). reflexivity.
